@@ -7,7 +7,8 @@ lane under /tmp/lanes, removed at the end), builds a scratch copy of the harness
 of the checks listed in the change's meta.json (target first). /repo and /verif/harness are not touched.
 Result: seeded/final_recheck.json  {name: {property: {"detected": bool, "build": ..., "signatures": [...]}}}.
 
-  tools/seed_recheck.py [lanes=3] [name-prefix ...]
+  tools/seed_recheck.py [--update-meta] [lanes=3] [name-prefix ...]
+  (--update-meta also writes the verdicts into seeded/<name>/meta.json: used for changes stored with SEED_EVAL_NO_CHECKS=1)
 """
 import json, os, subprocess, sys, shutil, glob, threading, re
 
@@ -93,6 +94,14 @@ def lane(i, names, out, lock):
                         break
                 res[p] = verdict
         sh("git checkout -q -- .", cwd=repo)
+        if UPDATE_META and "error" not in res:
+            for pp, v in res.items():
+                meta["check_verdicts"][pp] = {"exit": 1 if v["detected"] else 0, "detected": v["detected"], "signatures": v.get("signatures", []),
+                                              "build": v.get("build"), "builds_run": v["builds_run"]}
+                meta.setdefault("what_was_run", []).append("scratch worktree of /repo + patch.diff; vprop %s --tier quick in builds %s -> %s" % (
+                    pp, ",".join(v["builds_run"]), "VIOLATION reported" if v["detected"] else "silent"))
+            meta["caught_by"] = [pp for pp, v in meta["check_verdicts"].items() if v.get("detected")]
+            json.dump(meta, open(os.path.join(d, "meta.json"), "w"), indent=1)
         with lock:
             out[name] = res
             print(name, {k: (v.get("detected") if isinstance(v, dict) else v) for k, v in res.items()}, flush=True)
@@ -101,8 +110,15 @@ def lane(i, names, out, lock):
     shutil.rmtree(L, ignore_errors=True)
 
 
+UPDATE_META = False
+
+
 def main():
+    global UPDATE_META
     a = sys.argv[1:]
+    if "--update-meta" in a:
+        UPDATE_META = True
+        a.remove("--update-meta")
     lanes = int(a[0]) if a and a[0].isdigit() else 3
     prefixes = [x for x in a if not x.isdigit()]
     names = sorted(os.path.basename(os.path.dirname(f)) for f in glob.glob(os.path.join(V, "seeded", "*", "meta.json")))
